@@ -226,8 +226,8 @@ PLANS["C03"] = {
            mcrec("oscx", {"quick": 2, "thorough": 3}, True, ports({"chars": 2}, {"chars": 1, "bytes": 3})),
            mcrec("pairs", 1, True, ports({"chars": 1, "chars1": 2, "bytes": 3}, {"chars": 1, "chars1": 1, "bytes": 1, "bytes1": 2})),
            mcrec("pairs", 1, False, ports({"chars": 1}, {"chars": 1, "chars1": 2, "bytes": 2})),
-           {"module": "MCRecAbs", "model": "rec-class-abstraction", "kind": "rec", "plain": True, "emit": False,
-            "invariants": ["ClassAbstractionSound", "Accounted"], "ports": ports({}, {}), "workers": 4}],
+           {"module": "MCRecAbs", "model": "rec-class-sweep", "kind": "rec",
+            "invariants": ["ClassAbstractionSound", "Accounted", "Emit"], "ports": ports({"chars": 1, "bytes": 5}, {"chars": 1, "bytes": 2, "chars1": 7}), "workers": 4}],
     "gen": [gen("recsoup", 600, 20000, chars=60), gen("recsoup", 200, 6000, chars=200), walk("", 100, 3000, port="chars"),
             walk("", 60, 2000, port="chars", utf8=0)],
     "rule": "random strings over one representative of every character class of the grammar (every C0 control, ESC, C1 CSI/OSC/ST, digits, "
@@ -253,8 +253,8 @@ PLANS["C11"] = {
             "invariants": ["StreamingEqualsWhole", "NothingLost", "Emit"], "ports": ports({"bytes": 1}, {"bytes": 1})},
            {"module": "MCUtf8", "model": "utf8-deep", "kind": "bytes", "constants": {"MaxLen": {"quick": 4, "thorough": 5}}, "emit": False,
             "invariants": ["StreamingEqualsWhole", "NothingLost"], "ports": ports({"bytes": 1}, {"bytes": 1}), "workers": 8},
-           {"module": "MCUtf8Abs", "model": "utf8-class-abstraction", "kind": "bytes", "plain": True, "emit": False, "tiers": ("thorough",),
-            "invariants": ["TailsAreOK", "StepKeepsTailOK", "ClassAbstractionSound", "StepAccountsForByte"], "ports": ports({}, {}), "workers": 4}],
+           {"module": "MCUtf8Abs", "model": "utf8-class-sweep", "kind": "bytes", "tiers": ("thorough",),
+            "invariants": ["TailsAreOK", "StepKeepsTailOK", "ClassAbstractionSound", "StepAccountsForByte", "Emit"], "ports": ports({"bytes": 1}, {"bytes": 1}), "workers": 4}],
     "gen": [gen("recsoup", 400, 12000, port="bytes", chars=60), gen("soup", 200, 6000), gen("captured", 7, 70, maxbytes=1200)],
     "rule": "byte strings with well-formed 1-4 byte forms, overlongs, surrogates, > U+10FFFF, stray continuation bytes, truncated sequences, "
             "BOM, random chunking and mode switches between chunks; the text delivered to the listener per feed() call is compared by TLC "
